@@ -987,7 +987,11 @@ def arr_attr(I, a, attr):
     if attr == 'tz':
         return getattr(a, 'tz', None)
     if attr == 'duplicated':
-        raise Unsupported('duplicated()')
+        def duplicated(I_, keep='first'):
+            if keep not in ('first', 'last'):
+                raise Unsupported("duplicated(keep=False)")
+            return sym.duplicated_first(a, keep)
+        return duplicated
     raise Unsupported('ndarray.' + attr)
 
 
@@ -1118,6 +1122,13 @@ class _Loc:
         raise Unsupported('loc store form')
 
 
+class SymRows:
+    """DataFrame.iterrows(): pairs (index label, row)"""
+
+    def __init__(self, df):
+        self.df = df
+
+
 class Row:
     """one row of a DataFrame (iterrows / iloc[k])"""
 
@@ -1175,10 +1186,7 @@ def df_attr(I, df, attr):
             return None if inplace else target
         return set_index
     if attr == 'iterrows':
-        def iterrows(I_):
-            n = df.n if df.n is not None else 0
-            return SymZip([df.index if df.index is not None else Arr(0, None), Arr(n, lambda k: Row(df, k))])
-        return iterrows
+        return lambda I_: SymRows(df)
     if attr == 'keys':
         return lambda I_: list(df.cols)
     if attr in df.cols:
@@ -1279,8 +1287,8 @@ def df_getitem(I, df, key):
         # boolean row selection
         cnt, sel, rank = sym.COMP.get(key)
         out = DF()
-        out.n = cnt
         out.index = sym.compress(df.index, key)
+        out.n = out.index.n
         for c, col in df.cols.items():
             out.cols[c] = sym.compress(col, key) if isinstance(col, Arr) else col
         return out
